@@ -447,6 +447,59 @@ func runViews(c *vt.Ctx, ops []fsx.Op, via []int) *vt.Deviation {
 	return nil
 }
 
+// runDenied: o is a RemoveAll issued by a non-administrator; o.Perm is the mode of the directory /w/t/p
+// (owned by the administrator) that stands in his way.
+func runDenied(c *vt.Ctx, o fsx.Op) *vt.Deviation {
+	const kind = "MemFS"
+	v := newFS(kind)
+	idm := v.Idm()
+	_, _ = idm.AddGroup("g1")
+	u1, err := idm.AddUser("u1", "g1")
+	if err != nil {
+		c.Inconclusive("AddUser: " + err.Error())
+		return nil
+	}
+	_ = v.SetUMask(0)
+	for _, d := range []string{"/w/t", "/w/t/p", "/w/t/q", "/w/t/q/r", "/w/t/p/s"} {
+		_ = v.Mkdir(d, 0o777)
+	}
+	_ = v.Chmod("/w", 0o777)
+	for _, f := range []string{"/w/t/p/f", "/w/t/q/g", "/w/t/q/r/h", "/w/t/p/s/k", "/w/keep"} {
+		_ = v.WriteFile(f, []byte(f), 0o666)
+	}
+	_ = v.Link("/w/t/p/f", "/w/out1")     // out of the protected directory
+	_ = v.Link("/w/t/q/g", "/w/out2")     // out of a removable one
+	_ = v.Link("/w/keep", "/w/t/q/r/in")  // into the tree
+	_ = v.Link("/w/t/q/r/h", "/w/t/p/h2") // from the removable part into the protected part
+	_ = v.Link("/w/t/p/s/k", "/w/t/q/k2") // and back
+	_ = v.Chmod("/w/t/p", fsx.ModeFromBits(o.Perm))
+	r := fsx.NewRunner(v)
+	defer r.CloseAll()
+	_ = v.SetUser(u1)
+	out := r.Do(fsx.Op{K: "RemoveAll", P: o.P})
+	_ = v.SetUser(idm.AdminUser())
+	c.Eval(1)
+	mk := func(clause, detail string) *vt.Deviation {
+		d := vt.Dev("prop", "C05", "fs", kind, "op", "RemoveAll", "clause", clause, "a", "dir+", "outcome", out.Err, "actor", "user")
+		d.Detail = fmt.Sprintf("MemFS, as a non-administrator, /w/t/p mode %04o: RemoveAll(%q) -> %s: %s", o.Perm, o.P, out, detail)
+		return d
+	}
+	if out.Err == "HANG" {
+		return mk("hang", out.Note)
+	}
+	if out.Err == "PANIC" {
+		return nil
+	}
+	after := snapshot(v, kind, true)
+	if bad := internal(v); len(bad) > 0 {
+		return mk("internal", strings.Join(bad, "; "))
+	}
+	if bad := apiInvariants(v, kind, after); len(bad) > 0 {
+		return mk("api", strings.Join(bad, "; "))
+	}
+	return nil
+}
+
 // trackCwd follows the working directory: Chdir to a path, or File.Chdir on a handle whose
 // (physical) path was noted when it was opened.
 func trackCwd(snap fsx.Snap, cwd string, opened map[int]string, o fsx.Op, out fsx.Out) string {
@@ -474,6 +527,8 @@ func TestCheck(t *testing.T) {
 		var dev *vt.Deviation
 		if cs.Kind == "conc" {
 			dev = concDev(c, *cs.Conc, sched.Replay(cs.Conc.Trace))
+		} else if cs.Kind == "denied" {
+			dev = runDenied(c, cs.Ops[0])
 		} else if cs.Kind == "views" {
 			dev = runViews(c, cs.Ops, cs.Via)
 		} else {
@@ -517,6 +572,44 @@ func TestCheck(t *testing.T) {
 			}
 		}
 		c.Extra("exhaustive_"+kind, fmt.Sprintf("%d (start tree, instance) cases of this shard out of %d instances x %d trees", n, len(insts), len(names)))
+	}
+	// (i-b) names that continue one another ("a", "ab", "a.txt"): a path index keyed by strings must not
+	// take a sibling for a descendant
+	for _, kind := range kinds {
+		pre := []fsx.Op{{K: "Mkdir", P: "/w/a", Perm: 0o755}, {K: "Mkdir", P: "/w/ab", Perm: 0o755}, {K: "WriteFile", P: "/w/a/f", Data: "AF", Perm: 0o644}, {K: "WriteFile", P: "/w/ab/f", Data: "ABF", Perm: 0o644},
+			{K: "Link", P: "/w/ab/f", P2: "/w/lf"}, {K: "Mkdir", P: "/w/ab/d", Perm: 0o755}, {K: "WriteFile", P: "/w/ab/d/g", Data: "G", Perm: 0o644}, {K: "WriteFile", P: "/w/a.txt", Data: "T", Perm: 0o644}, {K: "Mkdir", P: "/w/a/b", Perm: 0o755}}
+		calls := []fsx.Op{{K: "RemoveAll", P: "/w/a"}, {K: "RemoveAll", P: "/w/ab"}, {K: "RemoveAll", P: "/w/a/b"}, {K: "Rename", P: "/w/a", P2: "/w/z"}, {K: "Rename", P: "/w/ab", P2: "/w/z"}, {K: "Rename", P: "/w/a", P2: "/w/ab/y"},
+			{K: "Rename", P: "/w/ab", P2: "/w/a/y"}, {K: "Rename", P: "/w/a", P2: "/w/abc"}, {K: "Remove", P: "/w/a.txt"}, {K: "Rename", P: "/w/a.txt", P2: "/w/a/t"}, {K: "Rename", P: "/w/a/b", P2: "/w/a/bb"}, {K: "Remove", P: "/w/a/b"}}
+		for _, call := range calls {
+			idx++
+			if idx%c.NShards != c.Shard {
+				continue
+			}
+			ops := append(append([]fsx.Op{}, pre...), call, fsx.Op{K: "ReadDir", P: "/w"}, fsx.Op{K: "Lstat", P: "/w/ab/d/g"})
+			c.NonTrivial(vt.Hash64(kind, "prefix-names", call.String()))
+			if dev := runSeq(c, kind, ops); dev != nil {
+				c.Report(dev, Case{Kind: "seq", FS: kind, Ops: ops})
+			}
+		}
+	}
+	// (i-c) RemoveAll that is refused part of the way (the one call allowed to leave a changed tree behind):
+	// what it leaves is still a tree with exact link counts. A non-administrator removes a directory
+	// that holds something he may not empty, with hard links leading in and out of it.
+	{
+		n := 0
+		for _, mode := range []uint32{0o755, 0o555, 0o700, 0o777} {
+			for _, target := range []string{"/w/t", "/w/t/p", "/w/t/q", "/w/t/q/r"} {
+				n++
+				if n%c.NShards != c.Shard {
+					continue
+				}
+				cs := Case{Kind: "denied", FS: "MemFS", Ops: []fsx.Op{{K: "RemoveAll", P: target, Perm: mode}}}
+				c.NonTrivial(vt.Hash64("denied", target, fmt.Sprint(mode)))
+				if dev := runDenied(c, cs.Ops[0]); dev != nil {
+					c.Report(dev, cs)
+				}
+			}
+		}
 	}
 	c.SetExhaustive(true)
 
